@@ -12,9 +12,9 @@ trap cleanup EXIT
 cd "$wt"
 cp "$src/demo_$n.py" "$wt/demo_$n.py"
 sed -i "s#$src#$wt#g" "$wt/demo_$n.py"
-PYTHONPATH="$wt" timeout 600 /venv/bin/python "$wt/demo_$n.py" >/tmp/seedverify.clean.log 2>&1; clean=$?
+PYTHONPATH="$wt" timeout 600 /venv/bin/python "$wt/demo_$n.py" >/tmp/seedverify.$id.clean.log 2>&1; clean=$?
 git apply "$src/change_$n.diff" || { echo "$id: patch does not apply"; exit 1; }
-PYTHONPATH="$wt" timeout 600 /venv/bin/python "$wt/demo_$n.py" >/tmp/seedverify.bad.log 2>&1; bad=$?
+PYTHONPATH="$wt" timeout 600 /venv/bin/python "$wt/demo_$n.py" >/tmp/seedverify.$id.bad.log 2>&1; bad=$?
 tests=$(PYTHONPATH="$wt" timeout 1800 /venv/bin/python -m pytest -q -p no:cacheprovider 2>&1 | tail -1)
 echo "$id: demo clean=$clean changed=$bad tests: $tests"
 if [ "$clean" = "0" ] && [ "$bad" != "0" ] && echo "$tests" | grep -q "189 passed"; then
@@ -33,5 +33,5 @@ json.dump({'id': sid, 'breaks_property': prop,
 PY
   echo "$id: stored"
 else
-  echo "$id: NOT confirmed (see /tmp/seedverify.*.log)"; tail -5 /tmp/seedverify.bad.log
+  echo "$id: NOT confirmed (see /tmp/seedverify.$id.*.log)"; tail -5 /tmp/seedverify.$id.bad.log
 fi
